@@ -464,7 +464,7 @@ where
                         rng_algorithm: RngAlgorithm::ChaCha,
                         rng_seed: RngSeed::Fixed(0),
                         verbose: 0,
-                        max_shrink_time: 0,
+                        max_shrink_time: 15_000,
                         max_flat_map_regens: 1_000_000,
                         max_default_size_range: 100,
                         ..Config::default()
@@ -574,14 +574,15 @@ where
 }
 
 /// Runs a fixed list of pinned cases (regression replays etc.) through `case`, without proptest.
-pub fn run_fixed<T, F>(spec: &Spec, items: &[T], case: F) -> RunResult
+pub fn run_fixed<T, F, G>(spec: &Spec, items: &[T], case: F, tape_of: G) -> RunResult
 where
     T: Sync + std::fmt::Debug,
     F: Fn(&T) -> CaseOutcome + Sync,
+    G: Fn(&T) -> Vec<u32> + Sync,
 {
     let known = load_known_findings(spec.id);
     let mut acc = Accum::default();
-    let mut violations = vec![];
+    let mut violations: Vec<Violation> = vec![];
     for item in items {
         let outcome = match std::panic::catch_unwind(std::panic::AssertUnwindSafe(|| case(item))) {
             Ok(o) => o,
@@ -606,10 +607,16 @@ where
                     *acc.known_hits.entry(k.signature.clone()).or_default() += 1;
                     continue;
                 }
-                let replay_path = write_replay(spec.id, &f, &[]);
+                // one replay per signature is enough
+                if violations.iter().any(|v| v.failure.signature == f.signature) {
+                    *acc.counters.entry(format!("more-violations:{}", f.signature)).or_default() += 1;
+                    continue;
+                }
+                let tape = tape_of(item);
+                let replay_path = write_replay(spec.id, &f, &tape);
                 violations.push(Violation {
                     failure: f,
-                    tape: vec![],
+                    tape,
                     replay_path,
                 });
             }
@@ -620,6 +627,42 @@ where
         violations,
         harness_errors: HARNESS_ERROR.lock().unwrap().clone(),
     }
+}
+
+/// `run_fixed` over chunks of the list on `spec.workers` threads.
+pub fn run_fixed_parallel<T, F, G>(spec: &Spec, items: &[T], case: F, tape_of: G) -> RunResult
+where
+    T: Sync + std::fmt::Debug,
+    F: Fn(&T) -> CaseOutcome + Sync,
+    G: Fn(&T) -> Vec<u32> + Sync,
+{
+    if items.is_empty() {
+        return RunResult { accum: Accum::default(), violations: vec![], harness_errors: vec![] };
+    }
+    let chunk = (items.len() + spec.workers - 1) / spec.workers;
+    let results: Mutex<Vec<(usize, RunResult)>> = Mutex::new(vec![]);
+    std::thread::scope(|scope| {
+        for (i, part) in items.chunks(chunk.max(1)).enumerate() {
+            let case = &case;
+            let tape_of = &tape_of;
+            let results = &results;
+            std::thread::Builder::new()
+                .stack_size(256 << 20)
+                .spawn_scoped(scope, move || {
+                    let r = run_fixed(spec, part, case, tape_of);
+                    results.lock().unwrap().push((i, r));
+                })
+                .unwrap();
+        }
+    });
+    let mut parts = results.into_inner().unwrap();
+    parts.sort_by_key(|p| p.0);
+    let mut it = parts.into_iter().map(|p| p.1);
+    let mut total = it.next().unwrap();
+    for r in it {
+        total = merge_results(total, r);
+    }
+    total
 }
 
 pub fn merge_results(mut a: RunResult, b: RunResult) -> RunResult {
